@@ -68,8 +68,11 @@ def gen_cases(gb, rng, tier):
                     free = [i for i in genevo.NEW_IDS if i not in used]
                     if not free:
                         continue
-                    nf = dict(id=rng.choice(free), name='added', req='required', ty=nt, lit=None, default=None, const=None, doc=None, ann={},
-                              idl_req='required')
+                    # mostly an id shortly below the next known field's id: the compact writer then uses the short (delta) form for
+                    # that field, whose base is the ignored field's id
+                    near = [i for i in range(max(1, fj['id'] - 15), fj['id']) if i not in used]
+                    nf = dict(id=rng.choice(near) if near and rng.random() < 0.7 else rng.choice(free), name='added', req='required', ty=nt, lit=None,
+                              default=None, const=None, doc=None, ann={}, idl_req='required')
                     dw['fields'].insert(j, nf)
                     v = gengen.gen_value(rng, W, ty, 2)
                     try:
